@@ -221,7 +221,7 @@ int
 loadintfd(int fd, unsigned long *result, const unsigned long def)
 {
 	char *tmpbuf, *l;
-	const size_t i = lloadfilefd(fd, &tmpbuf, 2);
+	const size_t i = lloadfilefd(fd, &tmpbuf, 3);
 
 	if (i == (size_t) -1)
 		return -1;
@@ -231,8 +231,16 @@ loadintfd(int fd, unsigned long *result, const unsigned long def)
 		return 0;
 	}
 
+	/* the file must contain exactly one line, and that must be an unsigned decimal number */
+	if ((strlen(tmpbuf) + 1 != i) || (*tmpbuf < '0') || (*tmpbuf > '9')) {
+		errno = EINVAL;
+		free(tmpbuf);
+		return -1;
+	}
+
+	errno = 0;
 	*result = strtoul(tmpbuf, &l, 10);
-	if (*l) {
+	if (*l || (errno == ERANGE)) {
 		errno = EINVAL;
 		free(tmpbuf);
 		return -1;
